@@ -160,7 +160,7 @@ InitializeWith(iops) ==
 
 Initialize == \E iops \in IF initOps = Unset
                           THEN {s \in OpSeqs(0) : /\ NSched(s) <= MaxId - 1
-                                                   /\ \A i \in 1..Len(s) : s[i].k \notin {"strat", "reinit"}}
+                                                   /\ \A i \in 1..Len(s) : s[i].k \notin {"strat", "reinit", "endrep"}}
                           ELSE {initOps} : InitializeWith(iops)
 
 CanStart == rs \in {"INITIALIZED", "STOPPED"} /\ rep \in {"INITIALIZED", "STARTED"} /\ clock < EndT
